@@ -484,6 +484,10 @@ def run_check(prop: str, tier: str, base: int, workers: int, budget_s: Optional[
     if os.environ.get('VERIF_FAMILIES'):
         only = set(os.environ['VERIF_FAMILIES'].split(','))
         plan = {f: n for f, n in plan.items() if f in only}
+    if os.environ.get('VERIF_SCALE'):
+        # development aid (not used by the registered commands): a fraction of the random part of every family
+        scale = float(os.environ['VERIF_SCALE'])
+        plan = {f: max(50, int(n * scale)) for f, n in plan.items()}
     chunk = getattr(mod, 'CHUNK', 50)
     problems = selftest_determinism(prop, base, per_family=2 if tier == 'quick' else 4)
     tasks: List[Tuple[str, str, int, List[Any], int]] = []
